@@ -141,6 +141,9 @@ func c20ExecValue(ctx *vk.Ctx, c c20ValCase) error {
 		return fmt.Errorf("%s: UnmarshalReflect of own encoding %x: %v", c.T, bzR, err)
 	}
 	if err := lenient.eq(ptr.Elem(), d1.Elem(), c.T); err != nil {
+		if c20IsEpochVsZero(err) && ctx.Known(c20KnownAnyEpoch) {
+			return nil
+		}
 		return fmt.Errorf("reflect round trip changed the value: %v (bytes %x)", err, bzR)
 	}
 	decoded := []reflect.Value{d1}
@@ -150,7 +153,10 @@ func c20ExecValue(ctx *vk.Ctx, c c20ValCase) error {
 			return fmt.Errorf("%s: UnmarshalBinary2 of own encoding %x: %v", c.T, bzR, err)
 		}
 		if err := lenient.eq(ptr.Elem(), d2.Elem(), c.T); err != nil {
-			return fmt.Errorf("genproto2 round trip changed the value: %v (bytes %x)", err, bzR)
+			if c20IsEpochVsZero(err) && ctx.Known(c20KnownAnyEpoch) {
+			return nil
+		}
+		return fmt.Errorf("genproto2 round trip changed the value: %v (bytes %x)", err, bzR)
 		}
 		if err := strict.eq(d1.Elem(), d2.Elem(), c.T); err != nil {
 			return fmt.Errorf("the two decoders returned different values for %x: %v", bzR, err)
@@ -215,7 +221,10 @@ func c20ExecValue(ctx *vk.Ctx, c c20ValCase) error {
 			gv = cp
 		}
 		if err := lenient.eq(ptr.Elem(), gv, c.T); err != nil {
-			return fmt.Errorf("Any round trip changed the value: %v", err)
+			if c20IsEpochVsZero(err) && ctx.Known(c20KnownAnyEpoch) {
+			return nil
+		}
+		return fmt.Errorf("Any round trip changed the value: %v", err)
 		}
 	}
 
@@ -243,6 +252,9 @@ func c20ExecValue(ctx *vk.Ctx, c c20ValCase) error {
 		return fmt.Errorf("%s: JSON not a fixed point:\n second %s\n third  %s (err %v)", c.T, js2, js3, err)
 	}
 	if err := lenient.eq(ptr.Elem(), dj.Elem(), c.T); err != nil {
+		if c20IsEpochVsZero(err) && ctx.Known(c20KnownAnyEpoch) {
+			return nil
+		}
 		return fmt.Errorf("JSON round trip changed the value: %v (json %s)", err, js1)
 	}
 	return nil
@@ -269,7 +281,18 @@ func TestC20_Values(t *testing.T) {
 			ty := w.types[rapid.IntRange(0, len(w.types)-1).Draw(rt, "type")]
 			return c20ValCase{T: ty.Key, Tape: c20DrawTape(rt)}
 		},
-		Exec: c20ExecValue,
+		Exec: func(ctx *vk.Ctx, c c20ValCase) error {
+			err := c20ExecValue(ctx, c)
+			if err != nil && os.Getenv("C20_COLLECT") != "" {
+				msg := err.Error()
+				if len(msg) > 700 {
+					msg = msg[:700]
+				}
+				fmt.Printf("COLLECT|%s|%s\n", c.T, strings.ReplaceAll(msg, "\n", " "))
+				return nil
+			}
+			return err
+		},
 	})
 }
 
@@ -415,7 +438,7 @@ func c20ExecBytes(ctx *vk.Ctx, c c20BytCase) error {
 			if c20HasOverlongLen(in, 0) && ctx.Known(c20KnownOverlong) {
 				return nil
 			}
-			if len(in) == 0 && t.Info.IsAminoMarshaler && err1 == nil && ctx.Known(c20KnownEmptyRepr) {
+			if err1 == nil && (len(in) == 0 && t.Info.IsAminoMarshaler || c20HasEmptyPayload(in, 0)) && ctx.Known(c20KnownEmptyRepr) {
 				return nil
 			}
 			if err1 == nil && c20EndsWithBareBytesKey(in, 0) && ctx.Known(c20KnownBareKey) {
@@ -442,6 +465,9 @@ func c20ExecBytes(ctx *vk.Ctx, c c20BytCase) error {
 	var re []byte
 	errE, pE := c20Safe(func() (e error) { re, e = cd.encReflect(d1); return })
 	if pE != "" || errE != nil {
+		if (c20IsZeroReprMsg(pE) || c20IsZeroRepr(errE)) && ctx.Known(c20KnownZeroRepr) {
+			return nil
+		}
 		return fmt.Errorf("%s: value decoded from %x cannot be re-encoded: err=%v panic=%s", c.T, in, errE, pE)
 	}
 	ctx.ClassIf(!bytes.Equal(re, in), "accepted-noncanonical")
@@ -449,7 +475,10 @@ func c20ExecBytes(ctx *vk.Ctx, c c20BytCase) error {
 		var re2 []byte
 		errE2, pE2 := c20Safe(func() (e error) { re2, e = cd.encGen(d2); return })
 		if pE2 != "" || errE2 != nil {
-			return fmt.Errorf("%s: value decoded (genproto2) from %x cannot be re-encoded: err=%v panic=%s", c.T, in, errE2, pE2)
+			if (c20IsZeroReprMsg(pE2) || c20IsZeroRepr(errE2)) && ctx.Known(c20KnownZeroRepr) {
+			return nil
+		}
+		return fmt.Errorf("%s: value decoded (genproto2) from %x cannot be re-encoded: err=%v panic=%s", c.T, in, errE2, pE2)
 		}
 		if !bytes.Equal(re, re2) {
 			return fmt.Errorf("%s: re-encodings of the value decoded from %x differ: reflect %x genproto2 %x", c.T, in, re, re2)
@@ -457,24 +486,30 @@ func c20ExecBytes(ctx *vk.Ctx, c c20BytCase) error {
 	}
 	b1, err := cd.decReflect(re)
 	if err != nil {
-		if c20IsNilBigint(err) && ctx.Known(c20KnownNilBigint) {
+		if c20IsZeroRepr(err) && ctx.Known(c20KnownZeroRepr) {
 			return nil
 		}
 		return fmt.Errorf("%s: accepted %x, re-encoded to %x, which UnmarshalReflect rejects: %v", c.T, in, re, err)
 	}
 	if err := lenient.eq(d1.Elem(), b1.Elem(), c.T); err != nil {
+		if c20IsEpochVsZero(err) && ctx.Known(c20KnownAnyEpoch) {
+			return nil
+		}
 		return fmt.Errorf("%s: accepted %x; decode(encode(v)) != v: %v", c.T, in, err)
 	}
 	if t.Gen2 {
 		b2, err := cd.decGen(re)
 		if err != nil {
-			if c20IsNilBigint(err) && ctx.Known(c20KnownNilBigint) {
+			if c20IsZeroRepr(err) && ctx.Known(c20KnownZeroRepr) {
 			return nil
 		}
 		return fmt.Errorf("%s: accepted %x, re-encoded to %x, which UnmarshalBinary2 rejects: %v", c.T, in, re, err)
 		}
 		if err := lenient.eq(d1.Elem(), b2.Elem(), c.T); err != nil {
-			return fmt.Errorf("%s: accepted %x; decodeGen(encode(v)) != v: %v", c.T, in, err)
+			if c20IsEpochVsZero(err) && ctx.Known(c20KnownAnyEpoch) {
+			return nil
+		}
+		return fmt.Errorf("%s: accepted %x; decodeGen(encode(v)) != v: %v", c.T, in, err)
 		}
 	}
 	return nil
@@ -514,6 +549,12 @@ func c20ExecAnyBytes(ctx *vk.Ctx, w *c20World, t *c20Type, c c20BytCase, in []by
 		if c20HasOverlongLen(in, 0) && ctx.Known(c20KnownOverlong) {
 			return nil
 		}
+		if err1 == nil && c20HasEmptyPayload(in, 0) && ctx.Known(c20KnownEmptyRepr) {
+			return nil
+		}
+		if err1 == nil && c20EndsWithBareBytesKey(in, 0) && ctx.Known(c20KnownBareKey) {
+			return nil
+		}
 		return fmt.Errorf("Any decoders disagree on %x into %v: UnmarshalReflect err=%v ; UnmarshalAny err=%v", in, it, err1, err2)
 	}
 	ctx.NTIf(err1 == nil)
@@ -535,16 +576,22 @@ func c20ExecAnyBytes(ctx *vk.Ctx, w *c20World, t *c20Type, c c20BytCase, in []by
 	var re []byte
 	errE, pE := c20Safe(func() (e error) { re, e = w.cdc.MarshalAny(v1.Elem().Interface()); return })
 	if errE != nil || pE != "" {
+		if (c20IsZeroReprMsg(pE) || c20IsZeroRepr(errE)) && ctx.Known(c20KnownZeroRepr) {
+			return nil
+		}
 		return fmt.Errorf("value decoded from Any %x cannot be re-encoded: err=%v panic=%s", in, errE, pE)
 	}
 	b1 := reflect.New(it)
 	if err := w.cdc.UnmarshalAny(re, b1.Interface()); err != nil {
-		if c20IsNilBigint(err) && ctx.Known(c20KnownNilBigint) {
+		if c20IsZeroRepr(err) && ctx.Known(c20KnownZeroRepr) {
 			return nil
 		}
 		return fmt.Errorf("accepted Any %x, re-encoded to %x, which is rejected: %v", in, re, err)
 	}
 	if err := lenient.eq(v1.Elem(), b1.Elem(), "any"); err != nil {
+		if c20IsEpochVsZero(err) && ctx.Known(c20KnownAnyEpoch) {
+			return nil
+		}
 		return fmt.Errorf("accepted Any %x; decode(encode(v)) != v: %v", in, err)
 	}
 	return nil
@@ -556,10 +603,11 @@ func c20ExecAnyBytes(ctx *vk.Ctx, w *c20World, t *c20Type, c c20BytCase, in []by
 // generated decoder does not.
 const c20KnownOverlong = "reflect-desync-on-overlong-length-prefix"
 
-// c20KnownEmptyRepr: for a top-level AminoMarshaler type, UnmarshalReflect
-// maps empty input to the zero value without calling UnmarshalAmino, while the
-// generated UnmarshalBinary2 calls UnmarshalAmino("") which several types
-// reject (BigintValue, BigdecValue, ObjectID, Param, Balance).
+// c20KnownEmptyRepr: for an AminoMarshaler type (top level, list element or
+// field) an empty input / zero-length payload is mapped by the reflect decoder
+// to the zero value without calling UnmarshalAmino, while the generated
+// decoder calls UnmarshalAmino("") which several types reject (BigintValue,
+// BigdecValue, ObjectID, Param, Balance).
 const c20KnownEmptyRepr = "empty-input-aminomarshaler-reflect-accepts-gen-rejects"
 
 // c20KnownHexPanic: PkgID/ValueHash/ObjectID.UnmarshalAmino hex-decode the repr
@@ -578,13 +626,36 @@ func c20IsHexOverflow(p string) bool {
 // small".
 const c20KnownBareKey = "reflect-accepts-bytes-field-key-without-length"
 
-// c20KnownNilBigint: an absent / empty payload for a BigintValue is accepted by
-// both decoders as BigintValue{V: nil} (UnmarshalAmino is never called), which
-// MarshalAmino renders as "<nil>", which UnmarshalAmino then rejects.
-const c20KnownNilBigint = "empty-payload-bigint-nil-not-reencodable"
+// c20KnownZeroRepr: an absent / empty payload for an AminoMarshaler type is
+// accepted by both decoders as the Go zero value without UnmarshalAmino being
+// called; for BigintValue that is {V: nil}, rendered "<nil>" by MarshalAmino
+// and then rejected by UnmarshalAmino; for params.Param it is Param{}, on
+// which MarshalAmino panics ("invalid param type:").
+const c20KnownZeroRepr = "empty-payload-aminomarshaler-zero-value-not-reencodable"
 
-func c20IsNilBigint(err error) bool {
-	return err != nil && strings.Contains(err.Error(), `cannot unmarshal "<nil>" into a *big.Int`)
+func c20IsZeroRepr(err error) bool {
+	return err != nil && c20IsZeroReprMsg(err.Error())
+}
+
+func c20IsZeroReprMsg(m string) bool {
+	return strings.Contains(m, `cannot unmarshal "<nil>" into a *big.Int`) || strings.Contains(m, "invalid param type:")
+}
+
+// c20KnownAnyEpoch: a value whose whole encoding is empty because its only
+// non-zero content is a time.Time equal to the Unix epoch (amino's "empty
+// time") comes back from an Any envelope / interface field with the Go zero
+// time (year 1): decodeReflectBinaryAny and UnmarshalAnyBinary2 construct the
+// concrete value with reflect.New when the Any value is absent instead of
+// decoding empty bytes into it (which would apply amino's 1970 default).
+const c20KnownAnyEpoch = "any-empty-value-loses-epoch-time-default"
+
+func c20IsEpochVsZero(err error) bool {
+	if err == nil {
+		return false
+	}
+	m := err.Error()
+	return strings.Contains(m, "time 1970-01-01 00:00:00 +0000 UTC vs 0001-01-01 00:00:00 +0000 UTC") ||
+		strings.Contains(m, "time 0001-01-01 00:00:00 +0000 UTC vs 1970-01-01 00:00:00 +0000 UTC")
 }
 
 const c20BytRule = "a registered type, a base value from E6, and either 1-3 structure-aware wire mutations of its encoding (bit flip, truncate, byte set/insert/delete, field swap/duplicate/drop, wire-type and field-number edits, length-prefix edits, over-long varints, unknown fields; applied at a random nesting path with enclosing length prefixes repaired), or the same on its Any envelope decoded into an interface, or a raw byte string; types reaching p2p NetAddress are excluded (its UnmarshalAmino resolves host names); non-trivial = at least one decoder accepts the input"
